@@ -696,3 +696,111 @@ func gwRuleBinding(c *core.Ctx) {
 		}
 	}
 }
+
+func init() {
+	addRule("C10", &core.Rule{ID: "C10.parent-defaults", Floor: 3, Run: gwParentDefaults,
+		Doc: "The group, kind and namespace a parentRef is resolved with are the parentRef's own value exactly when it sets a non-empty one, else the default (Gateway API group, kind Gateway, the route's namespace): the explicit value flows in only from the branch `field != nil && *field != \"\"`."})
+}
+
+// overrideEdgeGuarded: the phi named `name` takes a value whose key contains `from` only from a block guarded by both tests.
+func overrideEdgeGuarded(fn *ssa.Function, name, from string, tests [2]string) (found, ok bool, detail string) {
+	for _, b := range fn.Blocks {
+		for _, in := range b.Instrs {
+			ph, isPhi := in.(*ssa.Phi)
+			if !isPhi || ph.Comment != name {
+				continue
+			}
+			for i, e := range ph.Edges {
+				if !strings.Contains(core.Key(e), from) {
+					continue
+				}
+				if _, loopCarried := e.(*ssa.Phi); loopCarried {
+					continue
+				}
+				found = true
+				g1, g2 := false, false
+				for _, g := range core.ControllingEdges(b.Preds[i]) {
+					k := core.StripVersion(core.Key(g.If.Cond))
+					if strings.Contains(k, tests[0]) && g.Branch {
+						g1 = true
+					}
+					if strings.Contains(k, tests[1]) && g.Branch {
+						g2 = true
+					}
+				}
+				ok = g1 && g2
+				detail = fmt.Sprintf("`%s` under %s:%v %s:%v", core.Key(e), tests[0], g1, tests[1], g2)
+			}
+		}
+	}
+	return
+}
+
+func gwParentDefaults(c *core.Ctx) {
+	fn := c.Fn("converters/gateway", "converter.syncRoute")
+	if fn == nil {
+		return
+	}
+	for _, x := range []struct{ v, field string }{{"parentGroup", "Group"}, {"parentKind", "Kind"}, {"namespace", "Namespace"}} {
+		found, ok, detail := overrideEdgeGuarded(fn, x.v, "parentRef."+x.field, [2]string{"parentRef." + x.field + " != nil)", "parentRef." + x.field + ` != "")`})
+		c.Check(found && ok, "syncRoute takes the parentRef's "+strings.ToLower(x.field)+" only when it sets a non-empty one", c.Pos(fn.Pos()), detail, "the explicit "+x.field+" is used "+detail+" (found: "+fmt.Sprint(found)+"): an explicit foreign value is ignored (the default attaches the route) or an empty one replaces the default")
+	}
+}
+
+func init() {
+	addRule("C15", &core.Rule{ID: "C15.gateway-cert", Floor: 4, Run: gwCert,
+		Doc: "applyCertRef gives a gateway host the file and hash of the very certificate whose VerifyHostname accepted the host name (first loop), or of the first valid certificate when none matched (second loop, only for hosts still without hash); file and hash always come from the same certificate."})
+}
+
+func gwCert(c *core.Ctx) {
+	fn := c.Fn("converters/gateway", "converter.applyCertRef")
+	if fn == nil {
+		return
+	}
+	type pair struct{ file, hash *ssa.Store }
+	byBlock := map[*ssa.BasicBlock]*pair{}
+	for _, st := range fieldStores(fn, false, "haproxy/types.TLSConfig", "TLSFilename") {
+		if byBlock[st.Block()] == nil {
+			byBlock[st.Block()] = &pair{}
+		}
+		byBlock[st.Block()].file = st
+	}
+	for _, st := range fieldStores(fn, false, "haproxy/types.TLSConfig", "TLSHash") {
+		if byBlock[st.Block()] == nil {
+			byBlock[st.Block()] = &pair{}
+		}
+		byBlock[st.Block()].hash = st
+	}
+	n := 0
+	for _, p := range byBlock {
+		n++
+		if p.file == nil || p.hash == nil {
+			var site ssa.Instruction
+			if p.file != nil {
+				site = p.file
+			} else {
+				site = p.hash
+			}
+			c.Violated("applyCertRef sets file and hash together", at(c, site), "a host gets a certificate file without its hash (or the reverse): the hash marks the host as assigned and drives in-place rotation")
+			continue
+		}
+		kf, kh := core.Key(p.file.Val), core.Key(p.hash.Val)
+		src := func(k string) string {
+			if i := strings.LastIndex(k, "."); i >= 0 {
+				return k[:i]
+			}
+			return k
+		}
+		role := "matching certificate"
+		if strings.Contains(kf, "defaultCrtFile") || strings.Contains(kf, "phi{") {
+			role = "first valid certificate"
+		}
+		c.Check(strings.HasSuffix(kf, ".Filename") && strings.HasSuffix(kh, ".SHA1Hash") && src(kf) == src(kh), "applyCertRef sets file and hash of one certificate: "+role, at(c, p.file), "", "file from `"+kf+"`, hash from `"+kh+"`")
+		if role == "matching certificate" {
+			c.Check(guardedBy(p.file, has("VerifyHostname(", " == nil)"), true), "applyCertRef assigns a certificate only to a host name it covers", at(c, p.file), "", "the assignment is not under VerifyHostname(host) == nil")
+		} else {
+			c.Check(guardedBy(p.file, has(`.TLSHash != "")`), false), "applyCertRef falls back only for hosts still without certificate", at(c, p.file), "", "the fallback overwrites hosts that already have a certificate")
+		}
+	}
+	c.Check(n == 2, "applyCertRef assignment sites", c.Pos(fn.Pos()), "", fmt.Sprintf("%d (reviewed: matching and fallback)", n))
+}
